@@ -423,7 +423,8 @@ _APPEND = {
            "configuration (version, AS, 4-octet AS capability, hold time, identifier, RFC 9234 role).",
     "C20": " The attributes of every route learned from the session (AS_PATH, next hop, ORIGIN, MED, LOCAL_PREF, eBGP flag, source, the "
            "peer's BGP identifier) are compared with what the UPDATE and the OPEN carried.",
-    "C22": " Negotiation must not depend on earlier sessions of the peer: all paths over two consecutive sessions with different OPENs "
+    "C22": " Add-path is in force only when the peer's OPEN carries the capability (class okNoAP lacks it; the negotiated value is part "
+           "of the model and decides how UPDATEs are encoded and keyed), also for peers with the IPv6 family only. Negotiation must not depend on earlier sessions of the peer: all paths over two consecutive sessions with different OPENs "
            "(role present / absent / another one in strict mode, 4-octet AS capability present / absent, hold time 90 / 0, quiet "
            "periods), for a passive peer (a new FSM per connection, state kept in the peer) and an active peer whose own FSM is handed "
            "the connections (verif hook) and reused.",
